@@ -52,7 +52,7 @@ pub trait JwsVerifier {
 
 impl JwsVerifier for Box<dyn JwsVerifier> {
   fn verify(&self, input: VerificationInput, public_key: &Jwk) -> Result<(), SignatureVerificationError> {
-    <dyn JwsVerifier>::verify(self, input, public_key)
+    (**self).verify(input, public_key)
   }
 }
 
